@@ -17,10 +17,10 @@ def kindOfSnap (st : PState) (dn : Bool) : RKind :=
 
 theorem send_kind_snap {fp : FdlParams} {op : OpState} {p p' : Peripheral} {h : Header} {pdu : Bytes}
     (hs : TxSpec fp op p (.send p' h pdu)) :
-    reqKind h = kindOfSnap p.state p.diagNeeded ∧ p'.state = p.state ∧ p'.diagNeeded = p.diagNeeded ∧
+    reqKind h = kindOfSnap p.state p.serviceIsDiag ∧ p'.state = p.state ∧ p'.diagNeeded = p.diagNeeded ∧
       p'.fcb = p.fcb ∧ p'.retry = p.retry + 1 ∧ p'.opts = p.opts ∧ p.retry ≤ fp.maxRetry ∧
       (p.state = .waitForParam → p.opts.userPrm ≠ none) ∧ (p.state = .waitForConfig → p.opts.config ≠ none) ∧
-      ((p'.state = .preDataExchange ∨ p'.state = .dataExchange) → p'.diagInFlight = p'.diagNeeded) := by
+      ((p'.state = .preDataExchange ∨ p'.state = .dataExchange) → p'.diagInFlight = p.serviceIsDiag) := by
   cases hs
   case dxDiag hr hst hd => rcases hst with hst | hst <;> simp_all [kindOfSnap]
   case dx hr hst hd => rcases hst with hst | hst <;> simp_all [kindOfSnap]
@@ -31,8 +31,12 @@ structure J8 (x : SG) (p : Peripheral) : Prop where
   first : x.expectFirst = true → p.fcb = .first
   lastNone : x.last = none → x.expectFirst = true
   toggled : x.expectFirst = false → x.accepted = true → ∀ k f0, x.last = some (k, f0) → p.fcb = cyc f0
+  /-- as long as the bit is the one of the last request, the peripheral is in the state it was in
+  when that request went out, and in the data-exchange states that request is still unanswered
+  (`retry_count > 0`) with the same service in flight -/
   snap : x.expectFirst = false → ∀ k f0, x.last = some (k, f0) → p.fcb = f0 →
-    p.state = x.snapState ∧ (p.diagNeeded = x.snapDiag ∨ (x.diagReq = true ∧ p.diagNeeded = true))
+    p.state = x.snapState ∧
+    ((p.state = .preDataExchange ∨ p.state = .dataExchange) → p.diagInFlight = x.snapDiag ∧ 0 < p.retry)
   kind : ∀ k f0, x.last = some (k, f0) → k = kindOfSnap x.snapState x.snapDiag ∧ f0 ≠ .inactive
   count : p.state ≠ .offline → (p.state = .waitForParam → p.opts.userPrm ≠ none) →
     (p.state = .waitForConfig → p.opts.config ≠ none) → x.anyReply = false → x.count ≤ p.retry
@@ -49,12 +53,26 @@ structure Inv8 (g : G) : Prop where
   slot : ∀ (i : Nat) (p : Peripheral), g.m.slots[i]? = some (some p) → J8 (g.sg i) p
   await : ∀ a, g.out = some a → ∀ i p, g.m.cur = some (i, p) → Await (g.sg i) p
 
+/-- A decline without event only happens while offline or waiting for parameters / configuration. -/
+theorem decline_none_state {fp : FdlParams} {op : OpState} {p p' : Peripheral}
+    (h : TxSpec fp op p (.decline p' none)) :
+    p.state = .offline ∨ p.state = .waitForParam ∨ p.state = .waitForConfig := by
+  cases h <;> simp_all
+
 theorem j8_decline {fp : FdlParams} {op : OpState} {x : SG} {p : Peripheral} (hJ : J8 x p)
     (ht : TxSpec fp op p (.decline { p with retry := 0 } none)) : J8 x { p with retry := 0 } where
   first := hJ.first
   lastNone := hJ.lastNone
   toggled := hJ.toggled
-  snap := hJ.snap
+  snap := by
+    intro he k f0 hl hf
+    obtain ⟨h1, _⟩ := hJ.snap he k f0 hl hf
+    refine ⟨h1, ?_⟩
+    intro hdx
+    exfalso
+    -- a decline without event never happens in the data-exchange states
+    have hdx' : p.state = .preDataExchange ∨ p.state = .dataExchange := hdx
+    rcases decline_none_state ht with h | h | h <;> rcases hdx' with h' | h' <;> (rw [h] at h'; cases h')
   kind := hJ.kind
   count := by
     intro h1 h2 h3 _
@@ -74,16 +92,22 @@ theorem inv8_init {fp : FdlParams} {slots : List (Option Peripheral)} (h : InitO
 
 theorem j8_send {fp : FdlParams} {op : OpState} {x : SG} {p p' : Peripheral} {h : Header} {pdu : Bytes}
     (hJ : J8 x p) (hP : PInv fp p) (hs : TxSpec fp op p (.send p' h pdu)) : J8 (sgSend h p' x) p' := by
-  obtain ⟨hk, hst, hdn, hfcb, hre, hop, hrl, hprm, hcfg, _⟩ := send_kind_snap hs
+  obtain ⟨hk, hst, hdn, hfcb, hre, hop, hrl, hprm, hcfg, hinf⟩ := send_kind_snap hs
   have hf : fcbOf h = p.fcb := (send_header hs).2.2.2.1
   refine ⟨by simp [sgSend], by simp [sgSend], by simp [sgSend], ?_, ?_, ?_⟩
   · intro _ k f0 hl _
-    simp [sgSend]
+    simp only [sgSend, true_and]
+    exact fun _ => by rw [hre]; omega
   · intro k f0 hl
     simp only [sgSend, Option.some.injEq, Prod.mk.injEq] at hl ⊢
     obtain ⟨rfl, rfl⟩ := hl
-    rw [hk, hst, hdn, hf]
-    exact ⟨rfl, hP.fcb⟩
+    rw [hk, hf]
+    refine ⟨?_, hP.fcb⟩
+    -- outside the data-exchange states the service does not depend on the flag
+    by_cases hdx : p'.state = .preDataExchange ∨ p'.state = .dataExchange
+    · rw [hinf hdx, hst]
+    · rw [hst] at hdx ⊢
+      cases hps : p.state <;> simp_all [kindOfSnap]
   · intro h1 h2 h3 _
     simp only [sgSend]
     rw [hre]
@@ -98,9 +122,8 @@ theorem await_send {fp : FdlParams} {op : OpState} {x : SG} {p p' : Peripheral} 
   obtain ⟨_, _, _, hfcb, _, _, _, _, _, hinf⟩ := send_kind_snap hs
   have hf : fcbOf h = p.fcb := (send_header hs).2.2.2.1
   refine ⟨by simp [sgSend], ⟨reqKind h, by simp [sgSend, hf, hfcb]⟩, by simp [sgSend], by simp [sgSend], ?_⟩
-  intro hst
+  intro _
   simp only [sgSend]
-  exact hinf hst
 
 theorem j8_offline {x : SG} {p : Peripheral} (hJ : J8 x p) :
     J8 (sgOffline x) { p with state := .offline, fcb := .first, retry := 0 } :=
@@ -124,9 +147,12 @@ theorem acc_cycles {p p' : Peripheral} {t : Telegram} {ev : Option PEvent} (h : 
 /-- If the bit is what it was, the peripheral is in the state it was (only `retry_count` may differ). -/
 theorem same_fcb_same {p p' : Peripheral} {t : Telegram} {ev : Option PEvent} (h : RxSpec p t p' ev)
     (hf : p.fcb ≠ .inactive) (he : p'.fcb = p.fcb) :
-    p'.state = p.state ∧ p'.diagNeeded = p.diagNeeded ∧ p'.diagInFlight = p.diagInFlight := by
+    p'.state = p.state ∧ p'.diagNeeded = p.diagNeeded ∧ p'.diagInFlight = p.diagInFlight ∧
+      ((p.state = .preDataExchange ∨ p.state = .dataExchange) → p'.retry = p.retry) := by
   have hne := cyc_ne_self hf
-  cases h <;> first | exact ⟨rfl, rfl, rfl⟩ | exact absurd he hne
+  cases h
+  case valRej hs _ => exact ⟨rfl, rfl, rfl, by intro h; rcases h with h | h <;> simp [hs] at h⟩
+  all_goals first | exact ⟨rfl, rfl, rfl, fun _ => rfl⟩ | exact absurd he hne
 
 theorem j8_reply {x : SG} {p p' : Peripheral} {t : Telegram} {ev : Option PEvent}
     (hJ : J8 x p) (hA : Await x p) (hf : p.fcb ≠ .inactive) (hs : RxSpec p t p' ev) :
@@ -146,9 +172,11 @@ theorem j8_reply {x : SG} {p p' : Peripheral} {t : Telegram} {ev : Option PEvent
   · intro _ k' f0 hl' hfe
     simp only [sgReply, hl, Option.some.injEq, Prod.mk.injEq] at hl' ⊢
     obtain ⟨rfl, rfl⟩ := hl'
-    obtain ⟨h1, h2, _⟩ := same_fcb_same hs hf hfe
-    rw [h1, h2]
-    exact ⟨hst, hdn⟩
+    obtain ⟨h1, _, h3, h4⟩ := same_fcb_same hs hf hfe
+    rw [h1, h3]
+    refine ⟨hst, fun hdx => ?_⟩
+    rw [h4 hdx]
+    exact hdn hdx
   · intro k' f0 hl'
     simp only [sgReply] at hl' ⊢
     exact hJ.kind k' f0 hl'
@@ -164,13 +192,13 @@ theorem cur_slot {m : Master} {i : Nat} {p : Peripheral} (hc : m.cur = some (i, 
 
 theorem j8_ghost_irrelevant {x x' : SG} {p : Peripheral} (hJ : J8 x p)
     (h1 : x'.expectFirst = x.expectFirst) (h2 : x'.last = x.last) (h3 : x'.accepted = x.accepted)
-    (h4 : x'.anyReply = x.anyReply) (h5 : x'.count = x.count) (h6 : x'.diagReq = x.diagReq)
+    (h4 : x'.anyReply = x.anyReply) (h5 : x'.count = x.count) (_h6 : x'.diagReq = x.diagReq)
     (h7 : x'.snapState = x.snapState) (h8 : x'.snapDiag = x.snapDiag) : J8 x' p := by
   refine ⟨?_, ?_, ?_, ?_, ?_, ?_⟩
   · rw [h1]; exact hJ.first
   · rw [h1, h2]; exact hJ.lastNone
   · rw [h1, h2, h3]; exact hJ.toggled
-  · rw [h1, h2, h6, h7, h8]; exact hJ.snap
+  · rw [h1, h2, h7, h8]; exact hJ.snap
   · rw [h2, h7, h8]; exact hJ.kind
   · rw [h4, h5]; exact hJ.count
 
@@ -324,10 +352,7 @@ theorem inv8_step {fp : FdlParams} (hfp : FpOk fp) {g g' : G} (hI : Inv fp g) (h
             (fun j p => J8 (g.upd slot (fun x => { x with diagReq := true }) j) p) h8.slot ?_ ?_
           · rw [upd_same]
             have hJ := h8.slot slot p hj
-            refine ⟨hJ.first, hJ.lastNone, hJ.toggled, ?_, hJ.kind, hJ.count⟩
-            intro he k f0 hl hf
-            obtain ⟨h1, _⟩ := hJ.snap he k f0 hl hf
-            exact ⟨h1, Or.inr ⟨rfl, rfl⟩⟩
+            exact ⟨hJ.first, hJ.lastNone, hJ.toggled, hJ.snap, hJ.kind, hJ.count⟩
           · intro j q hjq hJ; rw [upd_other _ _ hjq]; exact hJ
         · intro a ha j q hq
           rw [cur_of_set hj { g.m with slots := g.m.slots.set slot (some { p with diagNeeded := true }) } rfl rfl] at hq
